@@ -7,13 +7,19 @@ from .facts import strip_generics, callee_name, callee_path
 STORES_CLOSURE = (
     'cachelito_core::invalidation::InvalidationRegistry::register_callback',
     'cachelito_core::invalidation::InvalidationRegistry::register_invalidation_callback',
-    'once_cell::sync::Lazy::new', 'std::sync::LazyLock::new', 'std::thread::LocalKey::new',
-    'std::thread::spawn', 'std::sync::Arc::new', 'std::boxed::Box::new',
+    'once_cell::sync::Lazy::new', 'std::sync::lazy_lock::LazyLock::new', 'std::thread::local::LocalKey::new',
+    'std::thread::spawn', 'alloc::sync::Arc::new', 'alloc::boxed::Box::new',
 )
+REGISTRATION = {
+    'cachelito_core::invalidation::InvalidationRegistry::register_callback': 'clear',
+    'cachelito_core::invalidation::InvalidationRegistry::register_invalidation_callback': 'check',
+}
+DYN_CALLS = ('core::ops::function::Fn::call', 'core::ops::function::FnMut::call_mut', 'core::ops::function::FnOnce::call_once')
 ONCE_FAMILY = (
-    'std::sync::Once::call_once', 'std::sync::Once::call_once_force',
+    'std::sync::once::Once::call_once', 'std::sync::once::Once::call_once_force',
+    'std::sync::poison::once::Once::call_once', 'std::sync::poison::once::Once::call_once_force',
     'once_cell::sync::OnceCell::get_or_init', 'once_cell::sync::OnceCell::get_or_try_init',
-    'std::sync::OnceLock::get_or_init', 'once_cell::unsync::OnceCell::get_or_init',
+    'std::sync::once_lock::OnceLock::get_or_init', 'once_cell::unsync::OnceCell::get_or_init',
 )
 
 
@@ -28,23 +34,45 @@ class Program:
                 # a later crate never overrides an earlier one (core first)
                 if p not in self.bodies:
                     self.bodies[p] = b
-                    self.by_name[strip_generics(p)].append(b)
+                    self.by_name[b.name].append(b)
             for p, s in c.statics.items():
                 self.statics.setdefault(p, s)
         self._edges = {}
+        # closures handed to the invalidation registry, by registration function
+        self.registered = {'clear': [], 'check': []}
+        for b in list(self.bodies.values()):
+            for blk, t in b.calls():
+                cn = callee_name(t)
+                kind = REGISTRATION.get(cn)
+                if kind:
+                    for cb in self.closures_passed(t):
+                        self.registered[kind].append((cb, b, blk))
+
+    def dyn_call_kind(self, body, t):
+        """None, or 'clear' / 'check' / 'user' for a call through a `dyn Fn` object"""
+        if callee_name(t) not in DYN_CALLS or not t['args']:
+            return None
+        a0 = t['args'][0]
+        pl = a0.get('move') or a0.get('copy')
+        if not pl:
+            return None
+        ty = body.local_ty(pl['l'])
+        if 'dyn ' not in ty:
+            return None
+        flat = ty.replace("for<'a> ", '').replace("for<'b> ", '').replace("'a ", '').replace("'b ", '')
+        if 'Fn()' in flat:
+            return 'clear'
+        if 'Fn(&(dyn ' in flat or 'Fn(&dyn ' in flat:
+            return 'check'
+        return 'user'
 
     def lookup(self, t):
         """bodies a call terminator may enter directly (resolved callee)"""
         c = t['callee']
         out = []
-        for key in (c.get('resolved'), c.get('path')):
-            if not key:
-                continue
-            if key in self.bodies:
+        for key in (c.get('resolved_id'), c.get('id')):
+            if key and key in self.bodies:
                 return [self.bodies[key]]
-            n = strip_generics(key)
-            if n in self.by_name:
-                return list(self.by_name[n])
         return out
 
     def closures_passed(self, t):
@@ -58,8 +86,8 @@ class Program:
 
     def call_edges(self, body):
         """[(block, callee_body, how)] how in direct|closure|stored"""
-        if body.path in self._edges:
-            return self._edges[body.path]
+        if body.id in self._edges:
+            return self._edges[body.id]
         out = []
         for b, t in body.calls():
             for cb in self.lookup(t):
@@ -68,16 +96,18 @@ class Program:
             stored = cn in STORES_CLOSURE
             for cb in self.closures_passed(t):
                 out.append((b, cb, 'stored' if stored else 'closure'))
-        self._edges[body.path] = out
+            dk = self.dyn_call_kind(body, t)
+            if dk in ('clear', 'check') and body.name.startswith('cachelito_core::invalidation::'):
+                for (cb, _, _) in self.registered[dk]:
+                    out.append((b, cb, 'dyn'))
+        self._edges[body.id] = out
         return out
 
     def closure_parent(self, body):
         """(parent body) of a closure/coroutine"""
-        p = body.path
-        idx = p.rfind('::{')
-        if idx == -1:
+        if body.kind not in ('closure', 'coroutine'):
             return None
-        return self.bodies.get(p[:idx])
+        return self.bodies.get(body.parent)
 
     def closure_capture_operands(self, body):
         """operands captured by a closure, from the aggregate that builds it in its parent"""
@@ -88,6 +118,6 @@ class Program:
             for i, st in enumerate(bl['stmts']):
                 if st['k'] == 'assign' and 'agg' in st['rv']:
                     k = st['rv']['agg']
-                    if isinstance(k, dict) and (k.get('closure') == body.path or k.get('coroutine') == body.path):
+                    if isinstance(k, dict) and (k.get('closure') == body.id or k.get('coroutine') == body.id):
                         return par, st['rv']['ops']
         return par, None
